@@ -250,6 +250,10 @@ func TestVerifC06Edns(t *testing.T) {
 		}
 		fkey := ""
 		relax := 0
+		if sc.optMode == 4 {
+			k += "-reqoptjunk"
+			relax = 1
+		}
 		nontrivial := !(called && !gq.hasOpt && sc.optMode == 0 && len(sc.ns) == 0)
 		rec := map[string]any{
 			"k": k, "coq": coq, "nontrivial": nontrivial,
@@ -264,6 +268,10 @@ func TestVerifC06Edns(t *testing.T) {
 		}
 		if fkey != "" {
 			rec["fkey"] = fkey
+		}
+		if relax != 0 {
+			rec["coq"] = fmt.Sprintf("CaseRelax %d (%s)", relax, coq)
+			relax = 0
 		}
 		b, _ := json.Marshal(rec)
 		f.Write(append(b, '\\n'))
